@@ -284,6 +284,19 @@ func main() {
 	debug.SetGCPercent(-1)
 	log.SetOutput(io.Discard)
 
+	if args["mode"] == "race" {
+		// only the concurrent mix (binary built with -race): any report makes the process fail
+		obs := concurrent(rnd.Fork(), 8, 1500, &hx.Stats{})
+		bad := 0
+		for _, o := range obs {
+			if o.bad {
+				bad++
+			}
+		}
+		fmt.Printf("c12 race mode: %d concurrent observations, %d getter panics\n", len(obs), bad)
+		return
+	}
+
 	st := &hx.Stats{Rule: "a case is a history on one router: 3-7 steps, each optionally replacing the tree (Handle/Update/Delete) and then sending a tagged request (direct, trailing-slash, other method, OPTIONS, no route) through ServeHTTP or doing a manual Lookup; before every acquisition chosen leftovers are planted in every resettable field of the pooled context; handlers set headers, write, mutate the request, Clone, CloneWith (own or new writer/request), nested Lookup; every observation is compared with the model (view + raw field dump) and with the view the specification derives from the current request alone; clones are re-inspected after every later step. non-trivial = the history contains a Clone, CloneWith or Lookup; distinct = distinct histories (every token is unique)"}
 	ncases := 200
 	workers, perWorker, concEmit := 6, 150, 400
